@@ -102,6 +102,8 @@ pub fn place_on_matrix(
 
         datamasking::mask(&mut copy, mask);
         let matrix_score = score::score(&copy, &copy_transpose);
+        #[cfg(fast_qr_verif)]
+        crate::verif_hooks::record_candidate(mask, matrix_score, &copy);
         if matrix_score < best_score {
             best_score = matrix_score;
             best_mask = mask;
@@ -138,4 +140,9 @@ pub fn create_matrix(
         version: Some(version),
         ..place_on_matrix(&structure_binstring, ecl, version, mask)
     }
+}
+
+#[cfg(fast_qr_verif)]
+pub(crate) mod verif {
+    pub const MASKS: [crate::datamasking::Mask; 8] = super::MASKS;
 }
